@@ -1,30 +1,10 @@
 // C01: instant -> civil conversion follows the zone's TZif data exactly.
 // Oracle: zonemodel (independent TZif reader + POSIX rule evaluator) + refcal.
-#include "zonecheck.h"
+#include "zoneoracle.h"
 
 using vf::i128;
-static vf::Evidence* EV;
-
-static bool check_instant(const zp::Zone& z, const zp::Handle& h, int64_t t, std::string* why, bool count = true) {
-  const zm::Model& m = z.model;
-  if (m.pre_first_unspecified && !m.f.trans.empty() && t < m.f.trans.front().t) {
-    if (count) EV->unspec("before_first_transition_with_DST_type0_referenced");
-    // still executed (memory safety / UB), result not compared
-    (void)h.lookup(t);
-    return true;
-  }
-  const zm::LT exp = m.type_at(t);
-  const auto al = h.lookup(t);
-  const refcal::Civil ec = refcal::from_secs((i128)t + exp.utoff);
-  const refcal::Civil gc = zp::civ(al.cs);
-  if (al.offset != exp.utoff || al.is_dst != exp.isdst || std::string(al.abbr) != exp.abbr || gc != ec) {
-    *why = "lookup(" + vf::i64_str(t) + "): got offset=" + std::to_string(al.offset) + " dst=" + std::to_string(al.is_dst) +
-           " abbr=" + al.abbr + " cs=" + refcal::str(gc) + "; TZif data says offset=" + std::to_string(exp.utoff) +
-           " dst=" + std::to_string(exp.isdst) + " abbr=" + exp.abbr + " cs=" + refcal::str(ec);
-    return false;
-  }
-  return true;
-}
+static vf::Evidence*& EV = zo::EV;
+using zo::check_instant;
 
 static bool nontrivial(const zm::Model& m, int64_t t) {
   if (m.f.trans.empty()) return false;
